@@ -31,6 +31,9 @@ adc.w start+2,x
 lda (0x10+2),y
 lda [0x20+1],y
 and.b #0xf0|1
+ldx #0
+.ascii 'col\tumn'
+.db 1,0
 .db 1,0x2a,start&0xff
 .dw start+2,0xbeef
 loop:
@@ -129,7 +132,8 @@ def run(ctx) -> None:
         for v in vs:
             files = dict(b["files"])
             if v["inc"]:
-                files["moved.s"] = {"text": "\n".join(v["inc"]) + "\n"}
+                # (a source without a final line end: the included file ends without one too)
+                files["moved.s"] = {"text": "\n".join(v["inc"]) + ("\n" if v.get("final_newline", True) else "")}
             tasks.append({"src": "\n".join(v["main"]) + ("\n" if v.get("final_newline", True) else ""), "files": files, "rom": b["rom"]})
             meta.append((b, v["acts"]))
     res = Pool().map("assemble", tasks, timeout=30)
